@@ -14,7 +14,7 @@ from vf import report
 from vf.explore import core
 from vf.vworld import peer
 
-GRID = [(1.0, 1.0, 0), (2.0, 1.0, 0), (1.0, 2.0, 0), (0.5, 0.25, 0), (1.5, 0.5, 0.5), (3.0, 2.0, 1.0)]
+GRID = [(1.0, 1.0, 0), (2.0, 0.5, 0), (1.0, 2.0, 0), (2.0, 1.0, 0), (0.5, 0.25, 0), (1.5, 0.5, 0.5), (3.0, 2.0, 1.0), (4.0, 0.5, 0)]
 TIMED = ['ping timeout', 'transport close', 'transport error']
 EPS = 1e-9
 
